@@ -67,6 +67,9 @@ func runC08(t *testing.T, seed uint64, m *Mask) *Report {
 			ops = append(ops, op)
 		}
 	}
+	// id takeover before the peer is closed: a second session between the same peers takes the id of the first,
+	// which closes the first one gracefully; the peer close that follows must still wait for its handlers
+	takeover := closeKind == "peer" && !withCut && r.Chance(0.3)
 	closeYield := r.Intn(80)
 	closeSleep := time.Duration(r.Intn(15)) * time.Millisecond
 	cutAfter := time.Duration(r.Intn(25)) * time.Millisecond
@@ -78,7 +81,7 @@ func runC08(t *testing.T, seed uint64, m *Mask) *Report {
 		withCut = false
 	}
 	rep := &Report{NOps: len(ops), NFaults: nFaults}
-	rep.Cell = fmt.Sprintf("%s,close=%s,cut=%v,dial=%v", proto, closeKind, withCut, dial)
+	rep.Cell = fmt.Sprintf("%s,close=%s,cut=%v,dial=%v,takeover=%v", proto, closeKind, withCut, dial, takeover)
 
 	out := world.Run(t, opt, func(e *world.Env) {
 		for _, op := range ops {
@@ -127,6 +130,12 @@ func runC08(t *testing.T, seed uint64, m *Mask) *Report {
 				simrt.Sleep(closeSleep)
 			}
 			closeStart = e.Sched.Stats.Steps
+			if takeover {
+				if s2, _, _, _ := e.ServePair(A, B, pf, pf); s2 != nil {
+					s2.SetID(sa.ID())
+					e.Probe("c08-id-takeover-before-peer-close")
+				}
+			}
 			if closeKind == "peer" {
 				A.Close()
 			} else {
